@@ -133,6 +133,17 @@ theorem keep_applyOpS {s s' : SState} {op : OpS} (h : Inv s.b) (hc : applyOpS s 
     obtain ⟨f, _⟩ := updateMults_spec ups s.b b1 full h.mult0 h1
     show x ∈ r.b.synths id
     rw [hb.same.synths, f.synths]; exact hx
+  | slashRefill v p f sk t =>
+    unfold applyOpS at hc
+    obtain ⟨q, hq, hqs⟩ := map_ok hc
+    subst hqs
+    obtain ⟨r, hr, hqr⟩ := map_ok (show (slashRefillS s v p f sk t).map _ = .ok q from hq)
+    subst hqr
+    obtain ⟨_, _, _, _, b1, _, f1, hh⟩ := slashRefillS_ok h (show slashRefillS s v p f sk t = .ok (r.1, r.2) from hr)
+    show x ∈ r.1.b.synths id
+    rw [(refillHooks_bank _ _ _ hh).same.synths]
+    show x ∈ b1.synths id
+    rw [f1.synths]; exact hx
   | base op =>
     by_cases hf : ledgerFree op = true
     · obtain ⟨h1, _⟩ := applyOpS_ledgerFree hf hc
